@@ -1557,6 +1557,456 @@ class HistFam(Family):
             yield dict(case, ops=ops[:i] + ops[i + 1:])
 
 
+# ---- link OBJECTS: re-use, sharing, in-place update ----------------------------------------
+
+class Prog:
+    """Builder of an `obj` program: keeps count of the link objects / ParsedCommand objects so
+    that steps can name them by index (creation order = the index the driver uses)."""
+
+    def __init__(self, shape):
+        self.shape = list(shape)
+        self.steps = []
+        self.nobj = 0
+        self.ncmd = 0
+
+    def stored(self, key, salt):
+        self.steps.append(["add_s", key, det_spec(self.shape, [False] * len(self.shape), "i", salt)])
+
+    def bin(self, op, l, r, direct=False):
+        self.steps.append(["bin", op, l, r] + ([True] if direct else []))
+        self.nobj += 1
+        return self.nobj - 1
+
+    def fn(self, keys, f, ravel=False):
+        self.steps.append(["fn", list(keys), f, bool(ravel)])
+        self.nobj += 1
+        return self.nobj - 1
+
+    def cmd(self, text, refs, tr):
+        self.steps.append(["cmd", text, [list(r) for r in refs], tr])
+        self.ncmd += 1
+        return self.ncmd - 1
+
+    def pl(self, c):
+        self.steps.append(["pl", c])
+        self.nobj += 1
+        return self.nobj - 1
+
+    def sub(self, kind, key, alt=0):
+        """A link object of the given kind reading `key` (B: key + 1, U: f1(key), X: {x} * 2 - 1)."""
+        if kind == "B":
+            return self.bin(["add", "mul", "sub"][alt % 3], K(key), ["c", ["i", 1 + alt % 3]])
+        if kind == "U":
+            return self.fn([key], 1, bool(alt % 2))
+        c = self.cmd("{x} * 2 - 1", [["x", key]], ["b", "sub", ["b", "mul", ["r", "x", key], ["n", "2"]], ["n", "1"]])
+        return self.pl(c)
+
+    def case(self, tail=()):
+        return {"shape": self.shape, "steps": [list(x) for x in self.steps] + [list(x) for x in tail]}
+
+
+def K(key):
+    return ["k", key]
+
+
+def O(i):
+    return ["o", i]
+
+
+OBJ_PATTERNS = ("left", "right", "twice", "both", "nested", "nested-right", "const", "diamond")
+
+
+def obj_pattern(pr, kind, pat, X, Y, Z):
+    """Expressions that RE-USE link objects as operands.  Returns (s, tops): the shared sub-link
+    and the link objects built on top of it (in creation order)."""
+    s = pr.sub(kind, X)
+    if pat == "left":
+        return s, [pr.bin("mul", O(s), K(Y)), pr.bin("sub", O(s), K(Z))]
+    if pat == "right":
+        return s, [pr.bin("mul", K(Y), O(s)), pr.bin("sub", K(Z), O(s), direct=True)]
+    if pat == "twice":
+        return s, [pr.bin("mul", O(s), O(s)), pr.bin("add", O(s), K(Z))]
+    if pat == "both":
+        s2 = pr.sub("BUX"[("BUX".index(kind) + 1) % 3], Y, alt=1)
+        return s, [pr.bin("sub", O(s), O(s2)), pr.bin("mul", O(s2), K(Z)), pr.bin("add", O(s2), O(s))]
+    if pat == "nested":
+        d1 = pr.bin("add", O(s), K(Y))
+        e = pr.bin("mul", O(d1), K(Z))
+        g = pr.bin("sub", O(e), O(s))
+        return s, [d1, e, g]
+    if pat == "nested-right":
+        d1 = pr.bin("add", K(Y), O(s), direct=True)
+        e = pr.bin("mul", K(Z), O(d1))
+        g = pr.bin("sub", O(s), O(e))
+        return s, [d1, e, g]
+    if pat == "const":
+        d1 = pr.bin("mul", O(s), ["c", ["i", 2]])
+        d2 = pr.bin("sub", ["c", ["i", 3]], O(s))
+        e = pr.bin("add", O(d1), O(d2))
+        return s, [d1, d2, e]
+    # diamond of objects: e = (s + y) * (s - z)
+    d1 = pr.bin("add", O(s), K(Y))
+    d2 = pr.bin("sub", O(s), K(Z))
+    return s, [d1, d2, pr.bin("mul", O(d1), O(d2))]
+
+
+def obj_core(tier):
+    """Exhaustive core of the `obj` family: sub-link kind x re-use pattern x which of the objects
+    back a derived attribute (and in which order / under how many identifiers) x every removal /
+    update_id of an input, of the shared attribute, and update_id followed by a removal or by a
+    further construction on the renamed objects."""
+    sh = [2]
+    A, X, Y, Z = STORED0 - 1, STORED0, STORED0 + 1, STORED0 + 2
+    D = DERIVED0
+    n = 0
+    for kind in "BUX":
+        for pat in OBJ_PATTERNS:
+            for cfg in ("all", "tops", "s-last", "s-twice", "interleaved"):
+                n += 1
+                if tier == "quick" and cfg in ("s-last", "s-twice") and (n % 3) != 0:
+                    continue
+                pr = Prog(sh)
+                pr.stored(A, 7)
+                pr.stored(X, 1)
+                pr.stored(Y, 2)
+                pr.stored(Z, 3)
+                if cfg == "interleaved":
+                    # every object is added as soon as it exists: later constructions re-use link
+                    # objects that already back a derived attribute
+                    s = pr.sub(kind, X)
+                    pr.steps.append(["add", D, s])
+                    mark = len(pr.steps)
+                    pr2 = Prog(sh)
+                    pr2.nobj, pr2.ncmd = 0, 0
+                    s_, tops = obj_pattern(pr2, kind, pat, X, Y, Z)
+                    # replay the constructions of the pattern (skipping the one of `s`), adding each
+                    skip = 2 if kind == "X" else 1
+                    keys = {s: D}
+                    for j, st in enumerate(pr2.steps[skip:]):
+                        pr.steps.append(st)
+                        if st[0] in ("bin", "fn", "pl"):
+                            o = pr.nobj
+                            pr.nobj += 1
+                            keys[o] = D + len(keys)
+                            pr.steps.append(["add", keys[o], o])
+                        elif st[0] == "cmd":
+                            pr.ncmd += 1
+                    attached = keys
+                else:
+                    s, tops = obj_pattern(pr, kind, pat, X, Y, Z)
+                    attached = {}
+                    order = {"all": [s] + tops, "tops": tops, "s-last": tops + [s], "s-twice": [s] + tops + [s]}[cfg]
+                    for o in order:
+                        k = D + len(attached) if o not in attached else D + 20
+                        if o in attached:
+                            pr.steps.append(["add", k, o])       # the same link object under a second id
+                        else:
+                            attached[o] = k
+                            # the unchecked route for every third attachment
+                            pr.steps.append(["radd" if (n + k) % 3 == 0 else "add", k, o])
+                akeys = sorted(set(attached.values()))
+                tails = [[["remove", v]] for v in [X, Y, Z] + akeys[:2]]
+                for old in [X, Y] + ([attached[s]] if s in attached else []):
+                    tails.append([["update", old, 90], ["remove", 90]])
+                    tails.append([["update", old, 90], ["remove", Z], ["remove", Y]])
+                # construction on the renamed objects after update_id
+                o_new = pr.nobj
+                tails.append([["update", X, 90], ["bin", "add", O(s), K(Z)], ["add", D + 30, o_new], ["remove", Z]])
+                tails.append([["update", Z, 91], ["bin", "mul", O(tops[-1]), K(91)], ["add", D + 30, o_new], ["remove", 91]])
+                if tier == "quick":
+                    tails = tails[(n % 2)::2] + tails[-2:]
+                for t in tails:
+                    yield pr.case(t)
+    # two ParsedComponentLinks on ONE ParsedCommand object (as coded they share it), one of them
+    # also an operand; a user-function link under two identifiers
+    for variant in range(4):
+        pr = Prog(sh)
+        pr.stored(A, 7)
+        pr.stored(X, 1)
+        pr.stored(Y, 2)
+        c = pr.cmd("{x} - { y z }", [["x", X], ["y z", Y]], ["b", "sub", ["r", "x", X], ["r", "y z", Y]])
+        p1 = pr.pl(c)
+        p2 = pr.pl(c)
+        d = pr.bin("add", O(p1), K(Y)) if variant % 2 == 0 else pr.bin("mul", K(X), O(p2))
+        for j, o in enumerate([p1, p2, d] if variant < 2 else [d, p2]):
+            pr.steps.append(["add", D + j, o])
+        for t in ([["remove", X]], [["remove", Y]], [["update", X, 90], ["remove", 90]],
+                  [["update", Y, 90], ["remove", X]], [["update", X, 90], ["update", Y, 91], ["remove", 91]]):
+            yield pr.case(t)
+
+
+class ObjFam(Family):
+    """Link OBJECTS: expressions built by re-using link objects as operands (left, right, both, the
+    same object twice, nested to depth 2-3; binary, user-function and parsed links; two
+    ParsedComponentLinks on one ParsedCommand), several derived attributes backed by overlapping
+    objects (also one object under two identifiers), then removals and update_id (which rewrites
+    link objects in place).  Observables after EVERY step: `Data.components`,
+    `link.get_from_ids()` of every link object ever created, and — after every remove / update_id /
+    refused call and at the end — the value of every component (or that evaluating it raises)."""
+    name = "obj"
+    exhaustive = False
+    batch = 100
+    case_timeout = 60.0
+
+    def reset(self):
+        self._aux = None
+
+    def cases(self, tier, rng):
+        for c in obj_core(tier):
+            yield c
+        n = 2500 if tier == "quick" else 40000
+        for _ in range(n):
+            yield self.random_case(rng, tier)
+
+    def random_case(self, rng, tier):
+        sh = rng.choice([[2], [3], [2, 2]])
+        pr = Prog(sh)
+        A = STORED0 - 1
+        pr.steps.append(["add_s", A, stored_spec(rng, sh, "i", lo=-3, hi=3)])
+        live = []                        # identifiers believed to be components (approximation)
+        for j in range(rng.randint(2, 4)):
+            pr.steps.append(["add_s", STORED0 + j, stored_spec(rng, sh, "i", lo=-3, hi=3)])
+            live.append(STORED0 + j)
+        live.append(PIX0)
+        fresh_d, fresh_n = DERIVED0, 90
+        attached = {}                    # object -> identifiers it was added under
+        L = rng.randint(5, 11 if tier == "quick" else 15)
+
+        def pick():
+            return rng.choice(live) if live else STORED0
+
+        def operand(allow_const=True):
+            r = rng.random()
+            if pr.nobj and r < 0.55:
+                # re-use a link object: recent ones more often (nesting), any one sometimes
+                if rng.random() < 0.5:
+                    return O(rng.randrange(max(0, pr.nobj - 3), pr.nobj))
+                return O(rng.randrange(pr.nobj))
+            if allow_const and r < 0.65:
+                return ["c", list(rng.choice(INT_CONSTS))]
+            return K(pick())
+        for i in range(L):
+            r = rng.random()
+            late = i >= L // 2
+            if r < (0.30 if not late else 0.12):
+                l = operand()
+                rr = operand(allow_const=(l[0] != "c"))
+                if rng.random() < 0.15 and l[0] == "o":
+                    rr = list(l)                              # the same object twice
+                pr.bin(rng.choice(["add", "sub", "mul"]), l, rr, direct=rng.random() < 0.2)
+            elif r < (0.38 if not late else 0.16):
+                f = rng.choice([1, 2, 3])
+                pr.fn([pick() for _ in range(USER_ARITY[f])], f, rng.random() < 0.3)
+            elif r < (0.46 if not late else 0.20):
+                if pr.ncmd and rng.random() < 0.35:
+                    pr.pl(rng.randrange(pr.ncmd))            # another link on an existing command
+                else:
+                    k = rng.randint(1, 2)
+                    labels = rng.sample(TAG_LABELS, k)
+                    keys = [pick() for _ in range(k)]
+                    tr = rand_ptree_int(rng, rng.randint(1, 2), labels, keys)
+                    c = pr.cmd(pprint(tr, rng), [[lab, key] for lab, key in zip(labels, keys)], tr)
+                    pr.pl(c)
+            elif r < (0.72 if not late else 0.45) and pr.nobj:
+                # attach: mostly objects that are not attached yet, sometimes an attached one again
+                cands = [o for o in range(pr.nobj) if o not in attached]
+                if cands and rng.random() < 0.85:
+                    o = rng.choice(cands)
+                else:
+                    o = rng.randrange(pr.nobj)
+                if rng.random() < 0.06 and live:
+                    k = rng.choice(live)                      # an identifier in use
+                else:
+                    k = fresh_d
+                    fresh_d += 1
+                    live.append(k)
+                attached.setdefault(o, []).append(k)
+                pr.steps.append(["radd" if rng.random() < 0.25 else "add", k, o])
+            elif r < 0.86:
+                k = rng.choice(live + [fresh_d + 7]) if live else fresh_d + 7
+                pr.steps.append(["remove", k])
+                if k in live and k != PIX0:
+                    live.remove(k)
+            else:
+                old = rng.choice(live + [fresh_d + 7]) if live else fresh_d + 7
+                if rng.random() < 0.12 and [k for k in live if k != old]:
+                    new = rng.choice([k for k in live if k != old])    # in use: refused
+                else:
+                    new = fresh_n
+                    fresh_n += 1
+                    if old in live:
+                        live[live.index(old)] = new
+                pr.steps.append(["update", old, new])
+        return pr.case()
+
+    def run_impl(self, case):
+        T = Tokens(arith=True)
+        b = Built(case["shape"], None)
+        extra = {}
+        objs, cmds = [], []
+        sx_steps, obs = [], []
+
+        def cid_of(k):
+            if k in b.cids:
+                return b.cids[k]
+            if k not in extra:
+                extra[k] = ComponentID("n%d" % k)
+            b.cids[k] = extra[k]
+            return extra[k]
+
+        def operand(o):
+            if o[0] == "c":
+                return const_value(o[1])
+            if o[0] == "k":
+                return cid_of(o[1])
+            return objs[o[1]]
+
+        def sx_operand(o):
+            if o[0] == "c":
+                return ["c", T.tok(const_value(o[1]))]
+            return [o[0], o[1]]
+
+        def values():
+            out = []
+            for c in b.data.components:
+                k = b.key_of(c)
+                try:
+                    out.append([k, out_of(b.data[c], T)])
+                except IncompatibleAttribute:
+                    out.append([k, "incompatible"])
+                except RecursionError:
+                    out.append([k, "recursion"])
+                except Exception as exc:      # e.g. a user function called with the wrong inputs
+                    out.append([k, "raises-" + type(exc).__name__])
+            return out
+
+        def from_ids():
+            return [sorted(b.key_of(c) for c in o.get_from_ids()) for o in objs]
+        for st in case["steps"]:
+            err, valued = None, False
+            kind = st[0]
+            if kind == "add_s":
+                cid_of(st[1])
+                try:
+                    b.add_stored(st[1], st[2])
+                    arr = b.data[b.cids[st[1]]]
+                except ValueError:
+                    err = "value-error"
+                    arr = make_array(st[2], b.shape)
+                sx_steps.append(["addS", st[1], ["P"] + canon_arr(arr, T)])
+            elif kind == "bin":
+                l, r = operand(st[2]), operand(st[3])
+                if len(st) > 4 and st[4]:
+                    link = BinaryComponentLink(l, r, OPS[st[1]])
+                else:
+                    link = OPS[st[1]](l, r)       # the operator overloads of ComponentID / ComponentLink
+                objs.append(link)
+                sx_steps.append(["bin", st[1], sx_operand(st[2]), sx_operand(st[3])])
+            elif kind == "fn":
+                f = USER_FUNCS[st[2]]
+                if st[3]:
+                    f = _raveled(f)
+                objs.append(ComponentLink([cid_of(k) for k in st[1]], ComponentID("u"), using=f))
+                sx_steps.append(["fn", list(st[1]), st[2], bool(st[3])])
+            elif kind == "cmd":
+                cmds.append(ParsedCommand(st[1], dict((lab, cid_of(k)) for lab, k in st[2])))
+                sx_steps.append(["cmd"] + sx_link(["X", st[1], st[2]], T)[1:])
+            elif kind == "pl":
+                objs.append(ParsedComponentLink(ComponentID("p"), cmds[st[1]]))
+                sx_steps.append(["pl", st[1]])
+            elif kind in ("add", "radd"):
+                cid = cid_of(st[1])
+                link = objs[st[2]]
+                try:
+                    if kind == "radd":
+                        link.set_to_id(cid)
+                        dc = DerivedComponent(b.data, link)
+                        b.keep.append(dc)
+                        b.data.add_component(dc, cid)
+                    else:
+                        b.data.add_component_link(link, cid)
+                except ValueError:
+                    err = "value-error"
+                sx_steps.append([kind, st[1], st[2]])
+            elif kind == "remove":
+                try:
+                    b.data.remove_component(cid_of(st[1]))
+                except ValueError:
+                    err = "value-error"
+                sx_steps.append(["remove", st[1]])
+                valued = True
+            elif kind == "update":
+                try:
+                    b.data.update_id(cid_of(st[1]), cid_of(st[2]))
+                except ValueError:
+                    err = "value-error"
+                sx_steps.append(["update", st[1], st[2]])
+                valued = True
+            keys = [b.key_of(c) for c in b.data.components]
+            if err:
+                obs.append([err, [keys, values(), from_ids()]])
+            elif valued:
+                obs.append([keys, values(), from_ids()])
+            else:
+                obs.append([keys, "-", from_ids()])
+        self._aux = (sx_steps, T)
+        self._keep = (b, objs, cmds)
+        return [obs, values(), from_ids()]
+
+    def line(self, case, pyout):
+        aux = self._aux
+        if aux is None:
+            return sx(["obj", [list(case["shape"]), [], [], "arith", []], pyout])
+        sx_steps, T = aux
+        nd = len(case["shape"])
+        init = []
+        for i in range(nd):
+            arr = np.broadcast_to(np.arange(case["shape"][i], dtype=np.int64).reshape([-1 if j == i else 1 for j in range(nd)]), tuple(case["shape"]))
+            init.append([PIX0 + i, ["C"] + canon_arr(arr, T)])
+        return sx(["obj", [list(case["shape"]), init, sx_steps, "arith", []], pyout])
+
+    def nontrivial(self, case, po):
+        return any(s[0] in ("remove", "update") for s in case["steps"]) and \
+            any(s[0] == "bin" and (s[2][0] == "o" or s[3][0] == "o") for s in case["steps"])
+
+    def signature(self, case, po, res):
+        kinds = sorted(set(s[0] for s in case["steps"]))
+        return {"steps": "+".join(kinds)}
+
+    def shrink(self, case):
+        """Drop one step (renumbering the link objects / commands the later steps name)."""
+        steps = case["steps"]
+        for i in range(len(steps) - 1, 0, -1):
+            st = steps[i]
+            made_obj = st[0] in ("bin", "fn", "pl")
+            made_cmd = st[0] == "cmd"
+            oi = sum(1 for x in steps[:i] if x[0] in ("bin", "fn", "pl"))
+            ci = sum(1 for x in steps[:i] if x[0] == "cmd")
+            out, ok = [], True
+            for x in steps[:i] + steps[i + 1:]:
+                x = [list(y) if isinstance(y, list) else y for y in x]
+                if x[0] == "bin":
+                    for j in (2, 3):
+                        if x[j][0] == "o" and made_obj:
+                            if x[j][1] == oi:
+                                ok = False
+                            elif x[j][1] > oi:
+                                x[j] = ["o", x[j][1] - 1]
+                elif x[0] in ("add", "radd") and made_obj:
+                    if x[2] == oi:
+                        ok = False
+                    elif x[2] > oi:
+                        x[2] -= 1
+                elif x[0] == "pl" and made_cmd:
+                    if x[1] == ci:
+                        ok = False
+                    elif x[1] > ci:
+                        x[1] -= 1
+                out.append(x)
+            if ok:
+                yield dict(case, steps=out)
+
+
 PROP = Property(
     id="C14",
     title="Derived attributes compute their defining expression and go with their inputs",
@@ -1567,7 +2017,7 @@ PROP = Property(
               "C14.update_id_preserves_order", "C14.update_id_preserves_values",
               "C14.refusal_exact", "C14.refused_changes_nothing", "C14.call_refines_spec",
               "C14.update_id_breaks_dependents", "C14.parse_print"],
-    families=[GramFam(), Bcl(), ExprFam(), ArithFam(), ULink(), ParsedFam(), HistFam()],
+    families=[GramFam(), Bcl(), ExprFam(), ArithFam(), ULink(), ParsedFam(), HistFam(), ObjFam()],
     trusted_base=[
         "numpy ufuncs are pure elementwise functions of (dtype, bit pattern) independent of array layout (`**` is only generated on operands whose result is exact, because numpy's SIMD and scalar pow differ in the last bit otherwise); numpy basic indexing, broadcast_to/broadcast_arrays striding (L0 model in Model/Derived.lean, the zero-stride pattern of results is compared in the bcl family)",
         "Python's expression evaluator and the tag regex of glue.core.parse (the Lean lexer/parser is compared with Python's own parser in the gram family)",
@@ -1577,5 +2027,5 @@ PROP = Property(
     rule="exhaustive: all zero-stride patterns x operators x operand kinds (bcl), all leaf pairs x operators at depth 1 and all views of a fixed tree (expr/arith), all insertion orders of a 5-node dependency pattern x every removal, every component order (reorder_components / derived components added before their inputs) of chains of depth 2-3, a diamond, a pixel input and a cyclic pair x link kinds x every removal, the refused calls (pixel component as removal victim, update_id onto stored / pixel / derived ids from a stored, derived, pixel or unknown id, add_component across kinds) on every insertion order (hist); seeded random trees to depth 3/5, user functions, command strings, histories beyond; non-trivial = result with more than one element / history with a removal, update_id or reorder",
 )
 
-for _f, _share in zip(PROP.families, (0.4, 1.0, 2.0, 1.0, 0.7, 1.5, 1.2)):
+for _f, _share in zip(PROP.families, (0.4, 1.0, 2.0, 1.0, 0.7, 1.5, 1.2, 1.2)):
     _f.budget_share = _share
